@@ -76,7 +76,9 @@ def _scenarios(modes, n_init=1):
              ("assignment", {"equation": "Y = 2*A + 1"}, "repeated"), ("assignment", {"equation": "Z = 7"}, 1.5)]
 
     def mk(cls, with_rxn):
-        rx = [([], ["A"], "massaction", {"k": 3.0}), (["A"], [], "massaction", {"k": 1.0})] if with_rxn else []
+        rx = [([], ["A"], "massaction", {"k": 3.0}), (["A"], [], "massaction", {"k": 1.0})] if with_rxn is True else []
+        if with_rxn == "decay":          # the network runs out of reactions after a few firings: total propensity exactly 0 from then on
+            rx = [(["A"], [], "massaction", {"k": 3.0})]
         M = cls(species=["A", "X", "N", "Y", "Z"], reactions=rx, rules=[tuple(r) for r in rules],
                 initial_condition_dict={"A": 2 if with_rxn else 0, "X": 0, "N": 0, "Y": 0, "Z": 0})
         for _ in range(n_init - 1):
@@ -86,7 +88,7 @@ def _scenarios(modes, n_init=1):
            "volume": dict(stochastic=True, volume=1.0), "delay": dict(stochastic=True, delay=True)}
     for name in modes:
         if name in kws:
-            for with_rxn in (False, True):
+            for with_rxn in (False, True, "decay"):
                 for seed in (1, 2, 3):
                     py_seed_random(seed)
                     try:
@@ -94,7 +96,7 @@ def _scenarios(modes, n_init=1):
                     except Exception as e:
                         log.append("%s: raised %s: %s" % (name, type(e).__name__, e))
                         break
-                    _check_rows(df, dt, log, "%s%s" % (name, "" if with_rxn else " (no reactions)"))
+                    _check_rows(df, dt, log, "%s%s" % (name, " (decay to exhaustion)" if with_rxn == "decay" else "" if with_rxn else " (no reactions)"))
                     if log:
                         return log
         elif name == "deterministic":
@@ -102,10 +104,10 @@ def _scenarios(modes, n_init=1):
             _check_rows(df, dt, log, "deterministic", ode=False, counter=False)
         elif name == "lineage":
             from bioscrape.lineage import LineageModel, py_SimulateSingleCell
-            for with_rxn in (False, True):
+            for with_rxn in (False, True, "decay"):
                 py_seed_random(5)
                 df = py_SimulateSingleCell(tp, Model=mk(LineageModel, with_rxn))
-                _check_rows(df, dt, log, "lineage single cell%s" % ("" if with_rxn else " (no reactions)"))
+                _check_rows(df, dt, log, "lineage single cell%s" % (" (decay to exhaustion)" if with_rxn == "decay" else "" if with_rxn else " (no reactions)"))
         if log:
             return log
     return log
